@@ -134,7 +134,7 @@ func (w *World) userBody(ui int) {
 			// after Run has returned only the control API is exercised: it must
 			// answer with the in-shutdown error / -1 and have no effect
 			switch op.K {
-			case "validate", "countx", "dup", "duplistener", "duplistener-bad", "register-none", "stopctx", "await-stop":
+			case "validate", "countx", "dup", "duplistener", "duplistener-bad", "register-none", "stopctx", "await-stop", "loop-misuse":
 			default:
 				continue
 			}
@@ -176,7 +176,7 @@ func (w *World) userBody(ui int) {
 		case "count":
 			w.userCount()
 			continue
-		case "validate", "countx", "dup", "duplistener", "duplistener-bad", "register-none", "stopctx":
+		case "validate", "countx", "dup", "duplistener", "duplistener-bad", "register-none", "stopctx", "loop-misuse":
 			w.userControl(ui, op)
 			continue
 		case "register", "enroll", "enroll-other", "enroll-loop", "register-loop":
